@@ -63,6 +63,18 @@ TESTS = {
                                    functions=['tarpc/src/server.rs::InFlightRequest (drop, execute), ResponseGuard::drop, BaseChannel::poll_next (internal cancellation queue), in_flight_requests (through the public API)'],
                                    bound='a yielded request abandoned at 5 points of its life (never run; execute created but never polled; while the handler runs; after the handler finished while the response waits for room in a one-slot response buffer; run to completion) x with/without the request-limit layer, next to a request that completes (10 scenarios); oracles: in_flight_requests() back to 0 without the clock moving, the stream ends once inbound closes, no response for a request whose handler never finished',
                                    why='replay search: source of concrete failing inputs for the server clauses of C11 (a handler that was never run or was dropped midway)'),
+    'cascade_bounded': dict(file='cascade_bounded', fn='cancellation_cascades_down_a_chain',
+                            functions=['tarpc/src/server.rs::InFlightRequest::execute, BaseChannel (cancel handling); tarpc/src/client.rs::Channel::call, ResponseGuard (through the public API, real tasks, two hops)'],
+                            bound='caller -> service A -> service B over in-memory transports; the caller abandons its call while B runs | before A calls B | never (3 scenarios); oracles: both handlers stop without B being released and without the clock moving; the reply travels back in the control run; both handlers observe the caller\'s trace id and sampling decision, span ids pairwise different',
+                            why='replay search for the cascade clause of C04 and the nested-call clause of C18, which span two endpoints and therefore no single function contract'),
+    'channels_exec_bounded': dict(file='channels_exec_bounded', fn='served_channels_count_as_channels',
+                                  functions=['tarpc/src/server/limits/channels_per_key.rs::TrackedChannel (its Channel impl incl. execute), Tracker, MaxChannelsPerKey (through the public API, channels actually served)'],
+                                  bound='n in 1..=3 x 0..=n yielded channels being served through Channel::execute with one handler in flight each x the first one dropped while its handler runs | kept, then one arrival (15 scenarios); oracle: admitted iff fewer than n channels with the key are alive, whatever their handlers do',
+                                  why='replay search: the part of C13 that concerns what holds a tracker alive (a served channel, not its handlers), outside the functions under contract in unit channels'),
+    'round_robin_bounded': dict(file='round_robin_bounded', fn='round_robin_is_fair_also_through_clones',
+                                functions=['tarpc/src/client/stub/load_balance.rs::RoundRobin::{new, call}, Clone, cycle::AtomicCycle (through the public API)'],
+                                bound='1..=4 backends x 1..=3 clones of the stub x 0..=13 calls x issued one after the other | concurrently (336 scenarios); oracle: per-backend counts never differ by more than one (after every call when sequential)',
+                                why='replay search: source of concrete failing inputs when the Kani harnesses of the cycle are undecided (they are written against its data layout) or fail; covers the sharing of the cursor between clones'),
     'channels_bounded': dict(file='channels_bounded', fn='channels_per_key_scripts',
                              functions=['tarpc/src/server/limits/channels_per_key.rs::MaxChannelsPerKey, TrackedChannel, Tracker (through the public API: Incoming::max_channels_per_key over an mpsc listener of BaseChannels)'],
                              bound='every script of <= 9 events over {arrive key 0, arrive key 1, drop the k-th oldest live yielded channel (k<3), poll once} x n in {1,2} (118516 scripts); oracle = the property (admitted iff fewer than n yielded channels with the key are alive when the filter reaches the arrival)',
